@@ -9,8 +9,8 @@ ASSUMPTIONS = ["ll2c.py translation of LLVM IR to C (validated natively on a seq
                "non-inlined calls execute atomically (none in these scenarios: everything is inlined)"]
 SCEN = {1: ("aba_pop_vs_pop_pop_push", ["thread0", "thread1"]), 2: ("pushpop_x2", ["thread0", "thread1"]),
         3: ("chain_vs_pop_pop", ["thread0", "thread1"]), 4: ("trypop_x2_vs_push", ["thread0", "thread1", "thread2"]),
-        5: ("recyclers_x2", ["thread0", "thread1"]), 6: ("pop_vs_pop_push", ["thread0", "thread1"])}
-BOUNDS = {"quick": {"rounds": 3, "scenarios": [1, 2, 3, 6]}, "thorough": {"rounds": "3..4", "scenarios": [1, 2, 3, 4, 5]}}
+        5: ("recyclers_x2", ["thread0", "thread1"]), 6: ("pop_vs_pop_push", ["thread0", "thread1"]), 7: ("aba_trypop_vs_pop_pop_push", ["thread0", "thread1"])}
+BOUNDS = {"quick": {"rounds": 3, "scenarios": [1, 2, 3, 6, 7]}, "thorough": {"rounds": "3..4", "scenarios": [1, 2, 3, 4, 5]}}
 def queries(ctx):
     qs = []
     def add(sc, R, tiers, unwind=None):
@@ -20,7 +20,7 @@ def queries(ctx):
                     info={"symbolic": ["schedule: every SC interleaving with <= %d scheduling slots per thread" % R],
                           "bounds": {"rounds": R, "threads": len(th)}, "functions": ["parsec_lifo_push", "parsec_lifo_pop", "parsec_lifo_try_pop", "parsec_lifo_chain"],
                           "stubs": []}))
-    for sc in (1, 2, 3, 6):
+    for sc in (1, 2, 3, 6, 7):
         add(sc, 3, ("quick", "thorough"))
     if ctx.thorough:
         for sc in (4, 5):
@@ -33,6 +33,7 @@ def mutants(ctx):
       Mutant("pop_pointer_only_cas", U, "return parsec_atomic_cas_int128(&addr->value, old.value, elem.value);",
              "(void)elem; return parsec_atomic_cas_ptr(&addr->data.item, old.data.item, item);", queries=["aba_pop_vs_pop_pop_push_r3"]),
       Mutant("pop_counter_not_incremented", U, ".counter = old.data.guard.counter + 1}", ".counter = old.data.guard.counter}", queries=["aba_pop_vs_pop_pop_push_r3"]),
+      Mutant("try_pop_pointer_only_cas", U, "    if (parsec_update_counted_pointer (&lifo->lifo_head, old_head,\n                                     (parsec_list_item_t *) item->list_next)) {", "    if (parsec_atomic_cas_ptr(&lifo->lifo_head.data.item, item, (parsec_list_item_t *) item->list_next)) {", queries=["aba_trypop_vs_pop_pop_push_r3"]),
       Mutant("push_plain_store", U, "        if (parsec_atomic_cas_ptr(&lifo->lifo_head.data.item, next, item)) {\n            return;\n        }\n#endif",
              "        lifo->lifo_head.data.item = item; return;\n#endif", queries=["pushpop_x2_r3"]),
       Mutant("chain_links_head_not_tail", U, "        tail->list_next = next;\n        parsec_atomic_wmb ();\n\n        /* to protect against ABA issues it is sufficient to only update the counter in pop */\n        if (parsec_atomic_cas_ptr(&lifo->lifo_head.data.item, next, ring)) {",
